@@ -48,6 +48,9 @@ type Rec struct {
 	W string `sod:"lower"`
 	// O is omitted from the JSON of an object when zero: a decoder that reuses its target sees the previous object's value
 	O int `json:",omitempty" sod:"index"`
+	// Y is a single-precision float: its index key is the exact double of the value (0.1 -> 0.10000000149011612), which is
+	// what directories written by earlier versions hold in schema.json
+	Y float32 `sod:"index"`
 	// R is an optional string: struct tags on pointer fields are not read by the library, a case constraint can only be
 	// put on it by a custom schema (custom schema 7); nil everywhere else
 	R *string
@@ -80,6 +83,7 @@ type RecPlain struct {
 	V  int
 	W  string `sod:"lower"`
 	O  int    `json:",omitempty"`
+	Y  float32
 	R  *string
 	D  time.Duration
 	Lv Level
@@ -191,6 +195,7 @@ func buildRec(v Vals, pl int) *Rec {
 	r.V = uniV[v["V"]]
 	r.W = caseLower.value(v["W"])
 	r.O = uniO[v["O"]]
+	r.Y = uniY[v["Y"]]
 	if v["R"] != zeroCode("R") {
 		x := caseUpper.value(v["R"])
 		r.R = &x
@@ -223,6 +228,7 @@ func encodeRec(r *Rec) Vals {
 	v["V"] = idxInt(uniV, r.V)
 	v["W"] = caseLower.encode(r.W)
 	v["O"] = idxInt(uniO, r.O)
+	v["Y"] = idxF32(uniY, r.Y)
 	v["R"] = zeroCode("R")
 	if r.R != nil {
 		v["R"] = caseUpper.encode(*r.R)
